@@ -67,6 +67,19 @@ Theorem C09_no_alloc_fault_unrestricted_refuted_nv_context :
   exists k ops, within_budget k ops /\ has_fault (run0 k ops) = true.
 Proof. exists (fst witness_nv_context), (snd witness_nv_context). vm_compute. split; reflexivity. Qed.
 
+(* C09:sequential-keep-handles-stay-active — here no flush faults, but the states disagree:
+   the full statement of agree_reachable (without `avoids_findings`) is refuted *)
+Definition agree_reachable_unrestricted : Prop :=
+  forall k ops, within_budget k ops -> Forall (good_obs k) (run0 k ops).
+Definition witness_sequential_keep : cfg * list op := (mkCfg 3 false false, [EprKeepSeq 2 false; Flush]).
+Theorem C09_agree_reachable_unrestricted_refuted_sequential_keep :
+  exists k ops o, within_budget k ops /\ In o (run0 k ops) /\ ~ good_obs k o.
+Proof.
+  exists (fst witness_sequential_keep), (snd witness_sequential_keep),
+         (OFlush [0; 0] [CEpr 0; CUse [0]; CFree 0; CEpr 0; CUse [0]; CFree 0] [] None).
+  split; [vm_compute; reflexivity|]. split; [vm_compute; right; left; reflexivity | apply bad_obs_dup].
+Qed.
+
 (* non-vacuity: a program on four-qubit NV hardware with the transpiler that stays in
    budget and outside the recorded classes, with a flushed qubit relocated by a
    measurement, a two-pair keep, a carbon-carbon gate while ID 0 is occupied, three
@@ -106,3 +119,4 @@ Print Assumptions C09_ids_reused.
 Print Assumptions C09_nv_relocation_frees_id0.
 Print Assumptions C09_no_alloc_fault_unrestricted_refuted_carbon_gate.
 Print Assumptions C09_no_alloc_fault_unrestricted_refuted_nv_context.
+Print Assumptions C09_agree_reachable_unrestricted_refuted_sequential_keep.
